@@ -2,7 +2,7 @@ CONSTANTS
   Kinds = {"deflate", "shuffle", "fletcher32", "lzf"}
   Levels = {1, 2, 3, 4, 5, 6, 7, 8, 9}
   Widths = {1, 2, 4, 8}
-  Payloads = {"empty", "one", "odd", "l10", "l11", "rep", "rnd", "far", "zeros", "big"}
+  Payloads = {"empty", "one", "odd", "l10", "l11", "rep", "rnd", "far", "zeros", "r64km", "r64k", "r64kp", "runs", "big"}
 SPECIFICATION Spec
 INVARIANTS Laws Emit
 CHECK_DEADLOCK FALSE
